@@ -241,6 +241,10 @@ fn run_fault(c: &mut Case, case: &ConnCase, model: &[ReqModel], seed: u64, fault
     }
     let phase = if invs.len() == ended + 1 { 1u64 } else { 0 };
     c.l.state(mix(w.hist, phase));
+    if !matches!(fault, Fault::None) {
+        // one distinct non-trivial case = one (connection, readiness pattern, fault point) executed and judged
+        c.l.sig(mix(mix(seed, crate::rng::hash_str(&what)), crate::rng::hash_bytes(12, &case.wire[..case.wire.len().min(64)])));
+    }
     oc(true)
 }
 
@@ -303,7 +307,7 @@ fn enumerate(c: &mut Case, scale: Scale) {
             j += wstep;
         }
     }
-    c.l.sig(mix(crate::rng::hash_bytes(12, &case.wire[..case.wire.len().min(200)]), case.reqs.len() as u64));
+    c.l.count("base_connections_fully_enumerated");
 }
 
 pub fn run(ctx: &Ctx, evidence: Option<&PathBuf>) -> i32 {
@@ -324,7 +328,7 @@ pub fn run(ctx: &Ctx, evidence: Option<&PathBuf>) -> i32 {
          a clean run, then EOF injected at EVERY byte offset 0..N, a read error (BrokenPipe / ConnectionReset / TimedOut / Other) at every read call index, a write error and a zero-length write at every write call index (call indices of the clean run with the same seeds; capped at ~400 points per class for very chatty runs). \
          Oracle: Token::run returns (quiescence with the task unfinished = hang; >2000 transport calls after a terminal result unwinds as 'spin'); no panic; the output decodes as a prefix of a well-formed record sequence; with all handlers propagating, zero bytes are written after the failed write; \
          handler invocations <= completely delivered preambles; the requests that were answered satisfy the full C07 oracle; under EOF every completely delivered request along the keep-conn chain is answered; the handler cut off by the fault read only a prefix of the delivered bytes, never got a successful empty read for a stream whose end had not arrived, and saw only UnexpectedEof / the injected kind / WriteZero. \
-         distinct_nontrivial = distinct base connections fully enumerated (set); distinct_states_observed = distinct (executor interleaving, fault phase).",
+         distinct_nontrivial = distinct (connection, readiness pattern, fault point) executions that were judged (set); distinct_states_observed = distinct (executor interleaving, fault phase).",
         &["spin is a bounded-call criterion inside the mock transport", "step budget exhaustion is counted, not judged"],
         false,
         evidence,
